@@ -23,6 +23,17 @@ def while_counter_ok(ctx, lp):
             conts = [n for n in walk(lp["body"]) if n.get("k") == "Continue"]
             if len(writes) == 1 and len(dec) == 1 and not conts:
                 return True, "counter %s strictly decreases towards its bound" % show(c, ctx)
+    # the length of a Vec as the counter: `while .. && v.len() > K { v.pop(); }` (a top-level pop on every iteration, no push)
+    for a in atoms:
+        if a[0] == "cmp" and a[1] in ("<", "<=") and a[2][0] == "num" and a[3][0] == "len":
+            V = a[3][1]
+            top = _top(lp)
+            pops = [t for t in top if t.get("k") == "MethodCall" and t.get("name") == "pop" and ctx.term(t["recv"]) == V]
+            grows = [n for n in walk(lp["body"]) if n.get("k") == "MethodCall" and n.get("name") in ("push", "insert", "extend", "resize", "append", "extend_from_slice") and ctx.term(n["recv"]) == V]
+            assigns = [n for n in walk(lp["body"]) if n.get("k") == "Assign" and ctx.term(n["l"]) == V]
+            conts = [n for n in walk(lp["body"]) if n.get("k") == "Continue"]
+            if pops and not grows and not assigns and not conts:
+                return True, "len(%s) strictly decreases (one pop per iteration) towards its bound" % show(V, ctx)
     return False, "no monotone counter in the condition"
 
 
